@@ -118,6 +118,9 @@ type Unit struct {
 	abstractions map[string]bool
 	deferCtr     int
 	inlineDepth  int
+	inLoopRefine bool
+	litActive    map[*ast.FuncLit]int  // literals being inlined (recursion through a closure variable)
+	litModsBusy  map[*ast.FuncLit]bool // literals whose write set is being computed
 	inlineStack  []*FuncUnit
 	nameCtr      map[string]int
 	synthObjs    map[string]types.Object
